@@ -48,6 +48,13 @@ type c15Op struct {
 	// S: the reader hands out its last chunk TOGETHER with io.EOF (an io.Reader may do that; callers must use the
 	// bytes before they look at the error).  Nothing changes for the model: it is the same stream.
 	EOFWithData bool `json:"eof_with_data,omitempty"`
+	// S: the reader FAILS behind its last chunk with an error other than io.EOF: 1 the error comes alone `(0, err)`,
+	// 2 it comes together with the last bytes `(n, err)` (same rule: the bytes count).  For the model: the flag
+	// `readerFails` of the stream op (everything is written, then the helper reports the failure).
+	ReaderErr int `json:"reader_err,omitempty"`
+	// S: before the first byte of every chunk the reader returns `(0, nil)` once (allowed, if discouraged, by the
+	// io.Reader contract: "nothing happened", in particular NOT the end of the stream).  Same stream for the model.
+	ZeroReads bool `json:"zero_reads,omitempty"`
 }
 
 // A request may carry ONE nested request: the handler serves it through the same Echo (same
@@ -56,11 +63,19 @@ type c15Op struct {
 type c15Req struct {
 	Nested *c15Req `json:"nested,omitempty"`  // served by the handler before its op number NestAt (after the last op if NestAt >= len)
 	NestAt int     `json:"nest_at,omitempty"` //
-	AE     string  `json:"accept_encoding"`
-	Ops    []c15Op `json:"ops"`
-	Skip   bool    `json:"skip,omitempty"`      // the request carries the header the case's Skipper looks for
-	Preset bool    `json:"preset_ce,omitempty"` // the handler sets Content-Encoding: gzip itself, first thing
-	Fail   int     `json:"fail,omitempty"`      // the handler returns echo.NewHTTPError(Fail) after its ops
+	// NestRaw k >= 1: the nested request is served not between two ops of the handler but while the outer response is
+	// being DELIVERED: from inside the k-th call the chain makes on the underlying http.ResponseWriter (WriteHeader,
+	// Write or Flush - a client that is slow to take that piece while the server answers somebody else), before the
+	// call is carried out; when the chain makes fewer calls, right after it has returned.  With Gzip in play these
+	// calls are made by the switch to compression, by Flush and by the deferred finaliser (delayed status, buffered
+	// body, gzip trailer) and - for a handler that failed unstarted - by the error handler after the chain has unwound.
+	// For the model it is a nested request like any other (C15_nestedX_independent: where it happens does not matter).
+	NestRaw int     `json:"nest_raw,omitempty"`
+	AE      string  `json:"accept_encoding"`
+	Ops     []c15Op `json:"ops"`
+	Skip    bool    `json:"skip,omitempty"`      // the request carries the header the case's Skipper looks for
+	Preset  bool    `json:"preset_ce,omitempty"` // the handler sets Content-Encoding: gzip itself, first thing
+	Fail    int     `json:"fail,omitempty"`      // the handler returns echo.NewHTTPError(Fail) after its ops
 }
 
 type c15DReq struct {
@@ -75,6 +90,9 @@ type c15DReq struct {
 	Skip      bool     `json:"skip,omitempty"`    // the request carries the header the case's Skipper looks for
 	Unknown   bool     `json:"unknown,omitempty"` // the length of the body is not known up front (chunked upload): ContentLength -1
 	Chunk     int      `json:"chunk,omitempty"`   // the body arrives in pieces of at most this many bytes (0: as one piece)
+	// the reader the server hands to the chain returns the last bytes of the body TOGETHER with io.EOF (net/http's
+	// own body readers do so when the length is known) instead of (n, nil) followed by (0, io.EOF)
+	EOFWithData bool `json:"eof_with_data,omitempty"`
 }
 
 type c15Case struct {
@@ -109,24 +127,44 @@ type c15Raw struct {
 	pushes    []string
 	hijacks   int
 	deadlines int
+	calls     int    // WriteHeader / Write / Flush calls made on the recorder so far
+	hookAt    int    // run hook from inside call number hookAt (1-based), before the call is carried out
+	hook      func() //
 }
 
 func newC15Raw() *c15Raw { return &c15Raw{hdr: http.Header{}} }
 
-func (r *c15Raw) Header() http.Header { return r.hdr }
-func (r *c15Raw) WriteHeader(code int) {
+// tick: one more call arrives at the connection; the client may be slow to take it
+func (r *c15Raw) tick() {
+	r.calls++
+	if r.hook != nil && r.calls == r.hookAt {
+		h := r.hook
+		r.hook = nil
+		h()
+	}
+}
+
+func (r *c15Raw) commit(code int) {
 	if r.committed {
 		return
 	}
 	r.committed, r.status, r.sent = true, code, r.hdr.Clone()
 }
+
+func (r *c15Raw) Header() http.Header { return r.hdr }
+func (r *c15Raw) WriteHeader(code int) {
+	r.tick()
+	r.commit(code)
+}
 func (r *c15Raw) Write(b []byte) (int, error) {
-	r.WriteHeader(http.StatusOK)
+	r.tick()
+	r.commit(http.StatusOK)
 	r.body = append(r.body, b...)
 	return len(b), nil
 }
 func (r *c15Raw) Flush() {
-	r.WriteHeader(http.StatusOK)
+	r.tick()
+	r.commit(http.StatusOK)
 	r.flushAt = append(r.flushAt, len(r.body))
 }
 
@@ -201,34 +239,59 @@ func c15Gunzip(b []byte) ([]byte, error) {
 
 type c15ChunkReader struct {
 	chunks      [][]byte
-	next        int
+	next        int // the chunk being handed out …
+	off         int // … and how much of it has been
 	res         *echo.Response
-	sizes       []int64 // Response.Size at every Read call
-	eofWithData bool    // the last bytes come with io.EOF
+	eofWithData bool // the last bytes come with io.EOF
+	failMode    int  // 0 | 1 fails behind the last chunk, error alone | 2 error together with the last bytes
+	zeroReads   bool // one (0, nil) before every chunk
+	zeroDone    bool
+	// the log
+	sizes   []int64    // Response.Size at every Read call
+	pieces  []c15Piece // what every Read call handed out
+	drained bool       // the reader has reported its end (io.EOF or its error)
+}
+
+// c15Piece: the bytes one Read call returned: n bytes of chunk number `chunk` (-1: none)
+type c15Piece struct{ chunk, n int }
+
+var errC15Reader = errors.New("c15: the reader failed")
+
+func (r *c15ChunkReader) skipEmpty() {
+	for r.next < len(r.chunks) && len(r.chunks[r.next]) == 0 {
+		r.next++
+	}
+}
+
+func (r *c15ChunkReader) end() error {
+	r.drained = true
+	if r.failMode != 0 {
+		return errC15Reader
+	}
+	return io.EOF
 }
 
 func (r *c15ChunkReader) Read(p []byte) (int, error) {
 	r.sizes = append(r.sizes, r.res.Size)
-	for r.next < len(r.chunks) && len(r.chunks[r.next]) == 0 {
-		r.next++
-	}
+	r.skipEmpty()
 	if r.next >= len(r.chunks) {
-		return 0, io.EOF
+		r.pieces = append(r.pieces, c15Piece{-1, 0})
+		return 0, r.end()
 	}
-	c := r.chunks[r.next]
-	n := copy(p, c)
-	if n < len(c) {
-		r.chunks[r.next] = c[n:]
-	} else {
-		r.next++
+	if len(p) == 0 || (r.zeroReads && r.off == 0 && !r.zeroDone) {
+		r.zeroDone = true
+		r.pieces = append(r.pieces, c15Piece{-1, 0})
+		return 0, nil
 	}
-	if r.eofWithData {
-		for r.next < len(r.chunks) && len(r.chunks[r.next]) == 0 {
-			r.next++
-		}
-		if r.next >= len(r.chunks) {
-			return n, io.EOF
-		}
+	n := copy(p, r.chunks[r.next][r.off:])
+	r.pieces = append(r.pieces, c15Piece{r.next, n})
+	r.off += n
+	if r.off >= len(r.chunks[r.next]) {
+		r.next, r.off, r.zeroDone = r.next+1, 0, false
+	}
+	r.skipEmpty()
+	if r.next >= len(r.chunks) && (r.failMode == 2 || (r.failMode == 0 && r.eofWithData)) {
+		return n, r.end()
 	}
 	return n, nil
 }
@@ -364,7 +427,7 @@ func c15RunOps(ctx echo.Context, ops []c15Op, tr *c15Trace) {
 			for _, c := range op.Chunks {
 				chunks = append(chunks, []byte(c))
 			}
-			rd := &c15ChunkReader{chunks: chunks, res: res, eofWithData: op.EOFWithData}
+			rd := &c15ChunkReader{chunks: chunks, res: res, eofWithData: op.EOFWithData, failMode: op.ReaderErr, zeroReads: op.ZeroReads}
 			result := 0
 			func() {
 				defer func() {
@@ -376,14 +439,18 @@ func c15RunOps(ctx echo.Context, ops []c15Op, tr *c15Trace) {
 					result = 1
 				}
 			}()
+			wantResult := 0
+			if op.ReaderErr != 0 {
+				wantResult = 1 // the helper must hand the reader's error on - after having written what came before it
+			}
 			sizes := append(rd.sizes, res.Size)
 			var counts []string
 			total := 0
 			for _, c := range op.Chunks {
 				total += len(c)
 			}
-			if result == 0 && len(rd.sizes) > 0 && int(res.Size-rd.sizes[0]) == total {
-				// the helper reported success and the response has grown by exactly what the reader
+			if result == wantResult && rd.drained && len(rd.sizes) > 0 && int(res.Size-rd.sizes[0]) == total {
+				// the helper ended as it should and the response has grown by exactly what the reader
 				// yielded: every chunk went through with its own length (how the copy was cut into
 				// Write calls - one per Read, or a ReadFrom fast path - is not the handler's business)
 				for _, c := range op.Chunks {
@@ -395,16 +462,26 @@ func c15RunOps(ctx echo.Context, ops []c15Op, tr *c15Trace) {
 					counts = append(counts, wInt(len(c)))
 				}
 			} else {
-				// something went wrong: chunk k was passed to Write between Read call k and Read call k+1
+				// something went wrong: what Read call j handed out was passed to Write between Read call j
+				// and Read call j+1 (the end of the helper for the last one); a chunk's count is the sum
+				// over its pieces
+				grown := make([]int, len(op.Chunks))
+				asked := make([]bool, len(op.Chunks))
+				for j, pc := range rd.pieces {
+					if pc.chunk >= 0 && j+1 < len(sizes) {
+						grown[pc.chunk] += int(sizes[j+1] - sizes[j])
+						asked[pc.chunk] = true
+					}
+				}
 				k := 0
-				for _, c := range op.Chunks {
+				for ci, c := range op.Chunks {
 					if len(c) == 0 {
 						continue
 					}
-					if k+1 >= len(sizes) {
-						break // not delivered
+					if !asked[ci] {
+						break // never asked for
 					}
-					n := int(sizes[k+1] - sizes[k])
+					n := grown[ci]
 					tr.anyWrite = true
 					tr.wrote = append(tr.wrote, c...)
 					noteCount(n, []byte(c), fmt.Sprintf("op %d: Stream chunk %d", i, k))
@@ -414,8 +491,19 @@ func c15RunOps(ctx echo.Context, ops []c15Op, tr *c15Trace) {
 						break
 					}
 				}
+				if result == 0 && !rd.drained && tr.badCount == "" {
+					tr.badCount = fmt.Sprintf("op %d: Stream reported success but stopped reading before the reader's end (%d of %d bytes asked for)", i, func() int {
+						a := 0
+						for _, pc := range rd.pieces {
+							a += pc.n
+						}
+						return a
+					}(), total)
+				}
 			}
-			if result != 0 && tr.badCount == "" {
+			// (a helper that reports success although its reader failed has not broken what the client recovers:
+			// that difference is left to the comparison with the model)
+			if (result == 2 || (result == 1 && wantResult == 0)) && tr.badCount == "" {
 				tr.badCount = fmt.Sprintf("op %d: Stream failed (result %d)", i, result)
 			}
 			tr.rets = append(tr.rets, wJoin(append([]string{"s", wInt(result), wInt(len(counts))}, counts...)...))
@@ -464,6 +552,7 @@ func c15OpLine(op c15Op) string {
 		for _, c := range op.Chunks {
 			parts = append(parts, wStr(string(c)))
 		}
+		parts = append(parts, wBool(op.ReaderErr != 0))
 		return strings.Join(parts, " ")
 	case "T":
 		return wJoin("T", wInt(op.Code), wStr(string(op.Data)))
@@ -546,12 +635,16 @@ type c15Out struct {
 // c15Facts: what c15Tolerable needs to know about one response beyond what its observation tokens say (the
 // observation shows the DECODED body, so the number of bytes on the wire is not in it)
 type c15Facts struct {
-	known    bool // the response was observed (no panic, not a placeholder)
-	encFree  bool // Gzip: the client accepts gzip, the request is not skipped, the handler does not label the body itself and the compressor can be built
-	badLevel bool // Gzip: the middleware wraps this request but compress/gzip rejects the configured level (a configuration the property does not speak about)
-	ran      bool // the handler ran
-	rawLen   int  // Gzip: bytes of body on the wire
-	status   int  // status on the wire
+	known    bool     // the response was observed (no panic, not a placeholder)
+	grey     bool     // Gzip: whether this Accept-Encoding value offers gzip is not fixed by the property (see c15Offer) and the request is not skipped
+	bodyless bool     // Gzip: the handler made no Write and no Flush call
+	ownCL    []string // Gzip: the Content-Length values the handler set itself (L and B ops)
+	onOwn    bool     // Gzip: grey, and the handler labels its body itself: whether the middleware is in play - and with it who answers for Content-Encoding - is open
+	encFree  bool     // Gzip: the client accepts gzip, the request is not skipped, the handler does not label the body itself and the compressor can be built
+	badLevel bool     // Gzip: the middleware wraps this request but compress/gzip rejects the configured level (a configuration the property does not speak about)
+	ran      bool     // the handler ran
+	rawLen   int      // Gzip: bytes of body on the wire
+	status   int      // status on the wire
 }
 
 // c15Side: the facts of the responses of a case, in the order of the observation line, keyed by the case (pointer)
@@ -570,7 +663,19 @@ func c15IsModelOp(op c15Op) bool { return op.K != "P" && op.K != "J" && op.K != 
 
 // c15ServeGzip serves a request and, from inside its handler, the request nested in it;
 // results in pre-order (outer first).
+// c15NestedOf: the request the handler of rq serves from inside.  None when it is open whether that handler runs at
+// all - a grey-zone Accept-Encoding (c15Offer) under a compression level compress/gzip rejects: the middleware may
+// refuse the request (it acts on it and cannot build its compressor) or serve it (it does not act on it) - because
+// then it is open as well whether the nested request exists, and the number of responses could not be compared.
+func c15NestedOf(env *c15Env, rq c15Req) *c15Req {
+	if rq.Nested != nil && !env.levelOK && c15Offer(rq.AE) == 1 && !(env.skipper && rq.Skip) {
+		return nil
+	}
+	return rq.Nested
+}
+
 func c15ServeGzip(env *c15Env, rq c15Req) []c15Out {
+	rq.Nested = c15NestedOf(env, rq)
 	var inner []c15Out
 	var sub func()
 	if rq.Nested != nil {
@@ -581,6 +686,9 @@ func c15ServeGzip(env *c15Env, rq c15Req) []c15Out {
 	out, ran := c15ServeGzip1(env, rq, sub)
 	if rq.Nested != nil {
 		out.tags = append(out.tags, "nested-request")
+		if rq.NestRaw > 0 {
+			out.tags = append(out.tags, "nested-request:while-the-outer-response-is-delivered")
+		}
 		if ran && len(inner) == 0 {
 			inner = []c15Out{{obs: "not-served", oracle: "the nested request was not served"}}
 		}
@@ -609,9 +717,25 @@ func c15ServeGzip1(env *c15Env, rq c15Req, sub func()) (out c15Out, ran bool) {
 		req.Header.Set("X-Skip", "1")
 	}
 	tr := &c15Trace{nestAt: rq.NestAt, sub: sub, base: env.base, raw: raw}
+	if rq.NestRaw > 0 && sub != nil {
+		// the nested request is served while the outer response is being delivered (only if there is an outer
+		// handler run to speak of: a request refused before its handler ran serves nothing)
+		tr.sub, tr.nestAt = nil, -1
+		raw.hookAt = rq.NestRaw
+		raw.hook = func() {
+			if tr.ran {
+				sub()
+			}
+		}
+	}
 	req = req.WithContext(c15WithTrace(req.Context(), tr, rq))
 	env.e.ServeHTTP(raw.as(env.base), req)
-	raw.WriteHeader(http.StatusOK) // what net/http does when the handler returns without writing
+	if raw.hook != nil { // fewer calls than NestRaw: right after the chain has returned
+		h := raw.hook
+		raw.hook = nil
+		h()
+	}
+	raw.commit(http.StatusOK) // what net/http does when the handler returns without writing
 
 	// ---- observation
 	ce := raw.sent.Get(echo.HeaderContentEncoding)
@@ -636,8 +760,11 @@ func c15ServeGzip1(env *c15Env, rq c15Req, sub func()) (out c15Out, ran bool) {
 	parts = append(parts, tr.rets...)
 	out.obs = strings.Join(parts, " ")
 
-	active := strings.Contains(rq.AE, "gzip") && !(env.skipper && rq.Skip)
-	out.facts = c15Facts{known: true, encFree: active && env.levelOK && !rq.Preset, badLevel: active && !env.levelOK,
+	offer := c15Offer(rq.AE)
+	mayAct := offer > 0 && !(env.skipper && rq.Skip)
+	grey := offer == 1 && mayAct
+	out.facts = c15Facts{known: true, encFree: mayAct && env.levelOK && !rq.Preset, badLevel: mayAct && !env.levelOK,
+		grey: grey, onOwn: grey && env.levelOK && rq.Preset, bodyless: !tr.anyWrite && !tr.anyFlush, ownCL: c15OwnCL(rq),
 		ran: tr.ran, rawLen: len(raw.body), status: raw.status}
 
 	w := c15Wire{status: raw.status, ce: ce, cl: cl, body: raw.body, flushAt: raw.flushAt, haveFlush: true}
@@ -646,6 +773,46 @@ func c15ServeGzip1(env *c15Env, rq c15Req, sub func()) (out c15Out, ran bool) {
 		out.tags = append(out.tags, "base-writer:ReadFrom-reached")
 	}
 	return out, tr.ran
+}
+
+// c15Offer: does an Accept-Encoding value offer gzip?  2: yes - one of its comma separated elements is exactly the
+// coding `gzip`, without a `q=0` parameter; 0: no - the letters "gzip" do not occur in it, in any case; 1: the grey zone
+// (`GZIP`, `gzip;q=0`, `x-gzip`, `xgzip` …): the property quantifies over Accept-Encoding values without saying which
+// of these count as an offer, so the middleware may or may not act on such a request - what it sends must be
+// consistent with itself either way.
+func c15Offer(ae string) int {
+	if !strings.Contains(strings.ToLower(ae), "gzip") {
+		return 0
+	}
+	for _, el := range strings.Split(ae, ",") {
+		name, params, _ := strings.Cut(el, ";")
+		if strings.TrimSpace(name) != "gzip" {
+			continue
+		}
+		refused := false
+		for _, p := range strings.Split(params, ";") {
+			k, v, _ := strings.Cut(p, "=")
+			if strings.EqualFold(strings.TrimSpace(k), "q") {
+				if q, err := strconv.ParseFloat(strings.TrimSpace(v), 64); err != nil || q == 0 {
+					refused = true // (an unparsable quality value is grey as well)
+				}
+			}
+		}
+		if !refused {
+			return 2
+		}
+	}
+	return 1
+}
+
+func c15OwnCL(rq c15Req) []string {
+	var out []string
+	for _, op := range rq.Ops {
+		if op.K == "L" || op.K == "B" {
+			out = append(out, strconv.Itoa(op.N))
+		}
+	}
+	return out
 }
 
 // c15Wire: what the client got
@@ -666,9 +833,14 @@ func c15JudgeGzip(env *c15Env, rq c15Req, tr *c15Trace, w c15Wire, out *c15Out) 
 	}
 	gz := strings.Contains(rq.AE, "gzip")
 	skipped := env.skipper && rq.Skip
-	active := gz && !skipped // the middleware wraps the writer
+	active := gz && !skipped // the middleware wraps the writer (the rule of the code as it is: for the tags)
+	// what the property fixes: an exact `gzip` token is an offer, no "gzip" anywhere is none; in between (c15Offer) the
+	// middleware may act or not
+	offer := c15Offer(rq.AE)
+	mayAct := offer > 0 && !skipped
+	mustAct := offer == 2 && !skipped
 	ce, cl := w.ce, w.cl
-	if active && !env.levelOK && !tr.ran {
+	if mayAct && !env.levelOK && !tr.ran {
 		// a compression level compress/gzip rejects: the property says nothing about a
 		// middleware that cannot be built; what happens (500, handler not run) is compared with
 		// the model only.  (Had the handler run, its response would be judged like any other.)
@@ -701,7 +873,8 @@ func c15JudgeGzip(env *c15Env, rq c15Req, tr *c15Trace, w c15Wire, out *c15Out) 
 	}
 	// a handler that labels its own bytes as gzip is on its own as soon as it sends a body, or
 	// when the middleware is not in play; with the middleware in play and no body the header must go
-	lyingHandler := rq.Preset && (!active || tr.anyWrite || tr.anyFlush)
+	// (grey zone: whether the middleware is in play is its own decision, so the handler's header may stay or go)
+	lyingHandler := rq.Preset && (!mustAct || tr.anyWrite || tr.anyFlush)
 	if !lyingHandler {
 		decoded, isGz := w.body, false
 		if d, err := c15Gunzip(w.body); err == nil {
@@ -846,8 +1019,26 @@ func c15JudgeGzip(env *c15Env, rq c15Req, tr *c15Trace, w c15Wire, out *c15Out) 
 		switch op.K {
 		case "S", "T":
 			out.tags = append(out.tags, "stream")
-			if op.EOFWithData {
-				out.tags = append(out.tags, "stream:last-bytes-with-EOF")
+			if op.K == "S" {
+				some, big := false, false
+				for _, c := range op.Chunks {
+					some = some || len(c) > 0
+					big = big || len(c) >= 32*1024
+				}
+				switch {
+				case op.ReaderErr == 2 && some:
+					out.tags = append(out.tags, "stream:last-bytes-with-error")
+				case op.ReaderErr != 0:
+					out.tags = append(out.tags, "stream:reader-fails-after-last-bytes")
+				case op.EOFWithData && some:
+					out.tags = append(out.tags, "stream:last-bytes-with-EOF")
+				}
+				if op.ZeroReads && some {
+					out.tags = append(out.tags, "stream:reads-returning-(0,nil)")
+				}
+				if big {
+					out.tags = append(out.tags, "stream:chunk>=32KiB(copy buffer)")
+				}
 			}
 		case "P":
 			out.tags = append(out.tags, "iface:Push")
@@ -952,21 +1143,26 @@ func (o c15Once) ServeHTTP(w http.ResponseWriter, r *http.Request) {
 
 // c15PieceReader hands out at most n bytes per Read (and hides the length of what it wraps)
 type c15PieceReader struct {
-	r io.Reader
-	n int
+	r           *bytes.Reader
+	n           int
+	eofWithData bool // the last bytes come together with io.EOF
 }
 
 func (p *c15PieceReader) Read(b []byte) (int, error) {
 	if p.n > 0 && len(b) > p.n {
 		b = b[:p.n]
 	}
-	return p.r.Read(b)
+	n, err := p.r.Read(b)
+	if p.eofWithData && err == nil && n > 0 && p.r.Len() == 0 {
+		err = io.EOF
+	}
+	return n, err
 }
 
 // c15DRequestBody: the body as the server hands it to the handler chain
 func c15DRequestBody(d c15DReq, wire []byte) io.Reader {
-	if d.Unknown || d.Chunk > 0 {
-		return &c15PieceReader{bytes.NewReader(wire), d.Chunk}
+	if d.Unknown || d.Chunk > 0 || d.EOFWithData {
+		return &c15PieceReader{bytes.NewReader(wire), d.Chunk, d.EOFWithData}
 	}
 	return bytes.NewReader(wire)
 }
@@ -1027,6 +1223,9 @@ func c15JudgeDecompress(skipper bool, d c15DReq, wire []byte, seen *c15DSeen, st
 	}
 	if d.Chunk > 0 {
 		out.tags = append(out.tags, "decompress:body-in-pieces")
+	}
+	if d.EOFWithData && len(wire) > 0 {
+		out.tags = append(out.tags, "decompress:last-bytes-with-EOF")
 	}
 	switch {
 	case skipper && d.Skip:
@@ -1245,6 +1444,7 @@ func c15Run(ci any) (res Result) {
 			}
 		}
 		for _, rq := range c.Reqs {
+			rq.Nested = c15NestedOf(env, rq)
 			reqLine(rq)
 			if rq.Nested == nil {
 				ops = append(ops, "0")
@@ -1256,7 +1456,7 @@ func c15Run(ci any) (res Result) {
 						at++
 					}
 				}
-				if rq.NestAt >= len(rq.Ops) {
+				if rq.NestAt >= len(rq.Ops) || rq.NestRaw > 0 {
 					at = len(rq.Ops)
 				}
 				ops = append(ops, "1", wInt(at))
@@ -1626,7 +1826,9 @@ func c15Size(r *rand.Rand, m int, wide bool) int {
 }
 
 var c15Codes = []int{200, 200, 201, 202, 206, 301, 302, 400, 404, 404, 500, 503, 204, 304}
-var c15AEs = []string{"gzip", "gzip", "gzip", "gzip, deflate, br", "br, gzip", "gzip;q=0", "", "deflate", "identity", "*", "x-gzip"}
+var c15AEs = []string{"gzip", "gzip", "gzip", "gzip, deflate, br", "br, gzip", "gzip;q=0", "", "deflate", "identity", "*", "x-gzip",
+	// more of the grey zone (c15Offer) and of the clear offers
+	"gzip", "deflate, gzip;q=0.5", "GZIP", "Gzip;q=0.8", "xgzip", "gzip;q=0.0, br"}
 
 func c15GenProg(r *rand.Rand, m int, wide bool) []c15Op {
 	n := r.Intn(7)
@@ -1651,6 +1853,18 @@ func c15GenProg(r *rand.Rand, m int, wide bool) []c15Op {
 				op.Chunks = append(op.Chunks, c15Data(r, sz))
 			}
 			op.EOFWithData = r.Intn(3) == 0
+			// the other ways a reader may end or stall: an error instead of io.EOF (alone or together with the
+			// last bytes), a Read that returns (0, nil)
+			if r.Intn(6) == 0 {
+				op.ReaderErr = 1 + r.Intn(2)
+			}
+			op.ZeroReads = r.Intn(8) == 0
+			// a chunk at / beyond the size of io.Copy's buffer (32 KiB): the reader fills the buffer it is given
+			// completely, the chunk arrives in more than one Read
+			if len(op.Chunks) > 0 && r.Intn(40) == 0 {
+				k := r.Intn(len(op.Chunks))
+				op.Chunks[k] = c15Data(r, []int{32767, 32768, 32769, 65536, 65537, 33000 + r.Intn(40000)}[r.Intn(6)])
+			}
 			ops = append(ops, op)
 		default:
 			ops = append(ops, c15Op{K: "T", Code: c15Codes[r.Intn(len(c15Codes))], Data: c15Data(r, c15Size(r, m, wide))})
@@ -1695,6 +1909,7 @@ func c15GenDReq(r *rand.Rand) c15DReq {
 	if r.Intn(4) == 0 {
 		d.Chunk = []int{1, 2, 3, 17, 64, 512}[r.Intn(6)]
 	}
+	d.EOFWithData = r.Intn(3) == 0
 	return d
 }
 
@@ -1826,6 +2041,10 @@ func c15GenCase(r *rand.Rand, tier string) *c15Case {
 			n := c15GenReq(r, m, false, c.Skipper)
 			rq.Nested = &n
 			rq.NestAt = r.Intn(len(rq.Ops) + 2)
+			// … or while the outer response is on its way to a slow client
+			if r.Intn(3) == 0 {
+				rq.NestRaw = 1 + r.Intn(4)
+			}
 		}
 		c.Reqs = append(c.Reqs, rq)
 	}
@@ -1844,9 +2063,17 @@ func c15Gen(r *rand.Rand, tier string) []any {
 	if tier == "thorough" {
 		n = 60000
 	}
+	if c15RaceBuild {
+		n = n * 3 / 5
+	}
 	out := make([]any, 0, n)
 	for i := 0; i < n; i++ {
-		out = append(out, c15GenCase(r, tier))
+		c := c15GenCase(r, tier)
+		// under the race detector: a third of the in-process cases run their requests concurrently (instead of 1 in 6)
+		if c15RaceBuild && !c.Concurrent && c.Wire == "" && r.Intn(5) == 0 {
+			c.Concurrent = true
+		}
+		out = append(out, c)
 	}
 	return out
 }
@@ -1946,6 +2173,11 @@ func c15Shrink(ci any) []any {
 			nd.Chunk = 0
 			set(nd)
 		}
+		if dq.EOFWithData {
+			nd := dq
+			nd.EOFWithData = false
+			set(nd)
+		}
 	}
 	for i := range c.Reqs {
 		if len(c.Reqs) > 1 {
@@ -1973,9 +2205,18 @@ func c15Shrink(ci any) []any {
 			out = append(out, &d)
 		}
 		nr := rq
-		nr.Nested, nr.NestAt = nil, 0
+		nr.Nested, nr.NestAt, nr.NestRaw = nil, 0, 0
 		set(nr)
 		set(*rq.Nested)
+		if rq.NestRaw != 0 {
+			nr = rq
+			nr.NestRaw = 0
+			set(nr)
+			if rq.NestRaw > 1 {
+				nr.NestRaw = rq.NestRaw - 1
+				set(nr)
+			}
+		}
 		if rq.NestAt != 0 {
 			nr = rq
 			nr.NestAt = 0
@@ -2068,14 +2309,27 @@ func c15Shrink(ci any) []any {
 						nop.Chunks = append([]a2bstr(nil), op.Chunks...)
 						nop.Chunks[k] = op.Chunks[k][:len(op.Chunks[k])/2]
 						repl(nop)
+						nop.Chunks = append([]a2bstr(nil), op.Chunks...)
+						nop.Chunks[k] = op.Chunks[k][:len(op.Chunks[k])-1]
+						repl(nop)
 					}
 				}
-				if len(op.Chunks) == 1 {
+				if len(op.Chunks) == 1 && op.ReaderErr == 0 {
 					repl(c15Op{K: "W", Data: op.Chunks[0]})
 				}
 				if op.EOFWithData {
 					nop := op
 					nop.EOFWithData = false
+					repl(nop)
+				}
+				if op.ReaderErr != 0 {
+					nop := op
+					nop.ReaderErr = 0
+					repl(nop)
+				}
+				if op.ZeroReads {
+					nop := op
+					nop.ZeroReads = false
 					repl(nop)
 				}
 			case "H":
@@ -2132,6 +2386,11 @@ func c15Shrink(ci any) []any {
 //     middleware is in charge of (not skipped, compressor can be built), a handler that does not label its body
 //     itself, header and body consistent on the implementation's side, and - for empty X - only in the direction
 //     "the implementation sends nothing at all" ("body-less responses stay empty");
+//   - the grey zone of Accept-Encoding (c15Offer: `GZIP`, `gzip;q=0`, `x-gzip`, `xgzip` …; the property fixes only "an
+//     exact gzip token is an offer, no gzip anywhere is none"): either decision of the middleware, i.e. all of the
+//     above in BOTH directions; for a handler that labels its body itself the header is then the handler's (kept or
+//     removed); a Content-Length the handler set itself and that stays on an uncompressed response (any request);
+//     under a rejected Level: refused by an error status although the model serves it, or the other way round;
 //   - a request the middleware refuses because compress/gzip rejects the configured Level (the property quantifies
 //     over MinLength, Accept-Encoding and handler programs, not over Level): which error status, and the error body;
 //     and if the implementation ran the handler there after all, its response (the model-free oracle has judged it
@@ -2290,41 +2549,58 @@ func c15TolerableGzip(i, m c15PResp, f c15Facts) bool {
 		if f.ran {
 			return true
 		}
-		return i.status >= 400 && m.status >= 400 && i.ce == m.ce && i.body.kind == "R" && m.body.kind == "R" &&
-			len(i.snaps) == 0 && len(m.snaps) == 0 && i.rets == m.rets
+		refused := func(r c15PResp) bool { return r.status >= 400 && r.body.kind == "R" && len(r.snaps) == 0 }
+		if !refused(i) {
+			return false
+		}
+		if f.grey {
+			return true // whether the middleware is in charge of this Accept-Encoding value at all is open: the model may serve what the implementation refuses
+		}
+		return refused(m) && i.ce == m.ce && i.rets == m.rets
 	}
 	if i.status != m.status || i.rets != m.rets || len(i.snaps) != len(m.snaps) {
 		return false
 	}
+	free := f.encFree || f.onOwn
 	// what the client recovers; whether it was compressed on the way is the middleware's business
 	recoded := false
 	if !i.body.equal(m.body) {
-		if !f.encFree || !c15SameBytesOtherCoding(i.body, m.body, true) {
+		if !free || !c15SameBytesOtherCoding(i.body, m.body, true) {
 			return false
 		}
-		if i.body.data == "s" && i.body.kind != "R" {
-			return false // nothing to recover: an empty body (the implementation's) is fine, a gzip stream of nothing where the model sends nothing is not
+		if i.body.data == "s" && i.body.kind != "R" && f.bodyless {
+			// nothing to recover: an empty body (the implementation's) is fine, a gzip stream of nothing for a
+			// handler that made no Write and no Flush call is not ("body-less responses stay empty")
+			return false
 		}
 		recoded = true
 	}
 	for k := range i.snaps {
 		if !i.snaps[k].equal(m.snaps[k]) {
-			if !f.encFree || !c15SameBytesOtherCoding(i.snaps[k], m.snaps[k], false) {
+			if !free || !c15SameBytesOtherCoding(i.snaps[k], m.snaps[k], false) {
 				return false
 			}
 			recoded = true
 		}
 	}
-	// Content-Encoding: gzip exactly when the body is a gzip stream
+	// Content-Encoding: gzip exactly when the body is a gzip stream (a handler that sets the header itself on a
+	// request the middleware need not act on answers for it itself)
 	if i.ce != m.ce || recoded {
-		if !f.encFree || i.ce != (i.body.kind == "G") {
+		if !free || (!f.onOwn && i.ce != (i.body.kind == "G")) {
 			return false
 		}
 	}
-	// no stale Content-Length
+	// no stale Content-Length: none, the true one, or - on a response that goes out uncompressed - the very value the
+	// handler set itself (not made stale by any compression; if it is wrong it is the handler's own wrong promise)
 	if i.hasCL != m.hasCL || i.cl != m.cl {
 		if i.hasCL && i.cl != strconv.Itoa(f.rawLen) {
-			return false
+			own := false
+			for _, v := range f.ownCL {
+				own = own || v == i.cl
+			}
+			if !own || i.body.kind != "R" || (i.ce && !f.onOwn) {
+				return false
+			}
 		}
 	}
 	// (Vary: not mentioned by the property)
@@ -2378,7 +2654,7 @@ func c15Tolerable(ci any, implObs, modelObs string) bool {
 func init() {
 	register(&Prop{
 		ID:             "C15",
-		Rule:           "7 of 8 cases: sequences of 1-5 requests (1 in 6 cases: run concurrently) through ONE Gzip instance built by GzipWithConfig{MinLength in {0,1,10,1000} (thorough: also 2,100 and, rarely, 40000 with bodies beyond io.Copy's 32 KiB buffer), Level in {default,1,9,HuffmanOnly}} or - 3 in 40 each - by Gzip(), with a negative MinLength, or - 1 in 40 - with a level compress/gzip rejects; 1 case in 8 with a Skipper (a third of its requests are skipped); underlying http.ResponseWriter: recording writer without extras (half), + io.ReaderFrom, + ReaderFrom/Pusher/Hijacker/SetWriteDeadline (a quarter each); 1 case in 25 over a real net/http server and client (oracle only); Accept-Encoding in {gzip, 'gzip, deflate, br', 'br, gzip', 'gzip;q=0', none, deflate, identity, *, x-gzip}; handler programs of 0-6 ops over {WriteHeader(code), Write(chunk), Flush, Stream(chunked reader without WriteTo), Stream(strings.Reader), and - outside the model's program - Pusher.Push, Response.Hijack, ResponseController.SetWriteDeadline} with chunk sizes {0,1,m-1,m,m+1,m/2,2m,random} around the threshold m, 1 in 6 preceded by an honest Content-Length set by the handler (a third of those from a Response.Before hook, i.e. at commit time), a third of the chunked readers handing out their last bytes together with io.EOF, 1 in 6 RETURNING AN ERROR (half of those before anything was started), 1 in 25 setting Content-Encoding: gzip itself (mostly body-less), 1 request in 5 serving a NESTED request (own program and Accept-Encoding) through the same Echo between two of its ops. 1 of 8 cases: 1-5 requests through ONE Decompress instance built by Decompress() or DecompressWithConfig{} / {GzipDecompressPool} / {Skipper} - for two thirds of the cases the constructor applied once to the handler (one reader pool for all requests), else e.Use + e.ServeHTTP, 1 in 10 over a real server with real chunked uploads - (a third of the cases start with gzip-labelled requests that have no body or a rejected one; a third of the requests serve a NESTED request through the same Echo between two reads of their own body) with Content-Encoding in {gzip, none, identity, deflate, br, GZIP, 'gzip, identity'} x body in {gzip of 1-2 members, damaged gzip (garbage after trailer / cut trailer / wrong checksum), empty, plain bytes of 1..200} x length known or unknown (ContentLength -1, chunked) x delivered in one piece or in pieces of 1..512 bytes. non-trivial = a gzip-accepted request whose switch to compression happens on a second or later write or is forced by Flush, or that ends below the threshold after >= 2 writes; or a well-formed gzip request body labelled gzip. distinct = distinct model op lines",
+		Rule:           "7 of 8 cases: sequences of 1-5 requests (1 in 6 cases: run concurrently) through ONE Gzip instance built by GzipWithConfig{MinLength in {0,1,10,1000} (thorough: also 2,100 and, rarely, 40000 with bodies beyond io.Copy's 32 KiB buffer), Level in {default,1,9,HuffmanOnly}} or - 3 in 40 each - by Gzip(), with a negative MinLength, or - 1 in 40 - with a level compress/gzip rejects; 1 case in 8 with a Skipper (a third of its requests are skipped); underlying http.ResponseWriter: recording writer without extras (half), + io.ReaderFrom, + ReaderFrom/Pusher/Hijacker/SetWriteDeadline (a quarter each); 1 case in 25 over a real net/http server and client (oracle only); Accept-Encoding in {gzip, 'gzip, deflate, br', 'br, gzip', 'deflate, gzip;q=0.5', none, deflate, identity, * and the grey zone gzip;q=0, 'gzip;q=0.0, br', x-gzip, xgzip, GZIP, Gzip;q=0.8 - for which oracle and Tolerable accept either decision of the middleware}; handler programs of 0-6 ops over {WriteHeader(code), Write(chunk), Flush, Stream(chunked reader without WriteTo), Stream(strings.Reader), and - outside the model's program - Pusher.Push, Response.Hijack, ResponseController.SetWriteDeadline} with chunk sizes {0,1,m-1,m,m+1,m/2,2m,random} around the threshold m, 1 in 6 preceded by an honest Content-Length set by the handler (a third of those from a Response.Before hook, i.e. at commit time), a third of the chunked readers handing out their last bytes together with io.EOF, 1 in 6 FAILING behind the last chunk (error alone or together with the last bytes), 1 in 8 returning (0, nil) before every chunk, 1 in 40 with a chunk of 32767..70000 bytes (at / beyond io.Copy's buffer), 1 in 6 RETURNING AN ERROR (half of those before anything was started), 1 in 25 setting Content-Encoding: gzip itself (mostly body-less), 1 request in 5 serving a NESTED request (own program and Accept-Encoding) through the same Echo between two of its ops or - a third of them - while the outer response is being DELIVERED (from inside the 1st..4th call the chain makes on the underlying writer: delayed status, buffered body, gzip header / trailer written by the finaliser, the error handler's answer). 1 of 8 cases: 1-5 requests through ONE Decompress instance built by Decompress() or DecompressWithConfig{} / {GzipDecompressPool} / {Skipper} - for two thirds of the cases the constructor applied once to the handler (one reader pool for all requests), else e.Use + e.ServeHTTP, 1 in 10 over a real server with real chunked uploads - (a third of the cases start with gzip-labelled requests that have no body or a rejected one; a third of the requests serve a NESTED request through the same Echo between two reads of their own body) with Content-Encoding in {gzip, none, identity, deflate, br, GZIP, 'gzip, identity'} x body in {gzip of 1-2 members, damaged gzip (garbage after trailer / cut trailer / wrong checksum), empty, plain bytes of 1..200} x length known or unknown (ContentLength -1, chunked) x delivered in one piece or in pieces of 1..512 bytes x (a third) last bytes together with io.EOF. non-trivial = a gzip-accepted request whose switch to compression happens on a second or later write or is forced by Flush, or that ends below the threshold after >= 2 writes; or a well-formed gzip request body labelled gzip. distinct = distinct model op lines",
 		New:            func() any { return &c15Case{} },
 		Gen:            c15Gen,
 		Run:            c15Run,
